@@ -595,3 +595,41 @@ def c02i(ctx):
             same = cvar is not None and depends(x.args[0], lambda y: isinstance(y, ast.Name) and unparse(y) == unparse(cvar), defs) or \
                 (cvar is not None and unparse(cvar) in {n.id for n in ast.walk(cf.expr(x.args[0])) if isinstance(n, ast.Name)})
             ctx.check(bool(same), 'KMLServer._get_subtiles:box-of-same-address', 'the box and the address of a sub tile come from the same grid coordinate', fn, x)
+
+
+@rule('C02.j', floor=2)
+def c02j(ctx):
+    """one address space per tile matrix set: a directory-based cache that is configured for several grids stores each grid in its
+    own directory -- the cache directory gets a grid-specific component (grid name / SRS), or, where the directory is taken as
+    configured, a cache with several grids is refused.  (Tile files are addressed by z/x/y only: two matrix sets in one directory
+    answer each other's addresses.)"""
+    L = 'mapproxy/config/loader.py:CacheConfiguration.'
+    for m in ('_file_cache', '_compact_cache'):
+        fn = ctx.fn(L + m)
+
+        fdefs = Defs(fn.node)
+
+        def ev(st, fdefs=fdefs):
+            # the new directory depends on the grid configuration (directly or through a local such as the SRS suffix)
+            if isinstance(st, ast.Assign) and any(isinstance(t, ast.Name) and t.id == 'cache_dir' for t in st.targets):
+                parts = st.value.args if isinstance(st.value, ast.Call) else [st.value]
+                # (the old value of cache_dir itself does not count: it would lead back to the other assignments)
+                if any(depends(a, lambda x: isinstance(x, ast.Name) and x.id == 'grid_conf', fdefs) for a in parts
+                       if not (isinstance(a, ast.Name) and a.id == 'cache_dir')):
+                    return 'grid-specific'
+            return None
+        # the part of the function that decides the directory: up to the first statement that does not mention the configuration
+        tab = ctx.rows(table(fn.node.body, lambda n: 'refuse' if isinstance(n, ast.Raise) and 'multiple grids' in unparse(n) else
+                             'other-raise' if isinstance(n, ast.Raise) else 'build', event_of=ev))
+        multi = [a for a in tab.atoms if 'has_multiple_grids' in a]
+        bad = []
+        for asg, out, events in tab.assignments():
+            if out != 'build' or 'grid-specific' in events:
+                continue
+            if multi and not asg[multi[0]]:
+                continue            # a single grid: nothing to keep apart
+            bad.append(asg)
+        ctx.check(not bad, 'CacheConfiguration.%s:directory-per-grid' % m,
+                  'a cache with several grids is built only with a grid-specific directory (%d rows)' % len(tab.rows), fn,
+                  fail='a cache with several grids can be built on one directory: tile addresses of different matrix sets collide '
+                       '(e.g. %s)' % (dict((k, v) for k, v in list(bad[0].items())[:3]) if bad else ''))
